@@ -52,7 +52,7 @@ contract("BloomFilter._get_optimized_params", kind="classmethod",
                   ("hashes_formula", "result[1] == bloom_k(estimated_elements, result[2])"),
                   ("at_least_one_hash", "result[1] >= 1"), ("at_least_one_bit", "result[2] >= 1")])
 
-contract("BloomFilter._set_values", contexts=["BloomFilter", "CountingBloomFilter"], properties=["C01", "C12", "C13", "C05"],
+contract("BloomFilter._set_values", contexts=["BloomFilter", "CountingBloomFilter", "BloomFilterOnDisk"], properties=["C01", "C12", "C13", "C05"],
          params={"est_els": "int", "fpr": "float", "n_hashes": "int", "n_bits": "int", "hash_func": "opt[hashfunc]"},
          requires=[("bits_below_2_53", "0 <= n_bits < 2**53"), ("bits_per_element", "self._bits_per_elm > 0")],
          modifies=["self._est_elements", "self._fpr", "self._bloom_length", "self._hash_func", "self._els_added",
@@ -191,7 +191,7 @@ contract("probables.blooms.bloom._verify_not_type_mismatch", kind="function", pr
          ensures=[("is_a_bloom_filter", "result == isinstance(second, (BloomFilter, BloomFilterOnDisk))")])
 
 classinfo("BloomFilterOnDisk", "probables.blooms.bloom",
-          dict(BLOOM_FIELDS, _bloom="mmap", _filepath="any", _BloomFilterOnDisk__file_pointer="fileptr"),
+          dict(BLOOM_FIELDS, _bloom="mmap", _filepath="key", _BloomFilterOnDisk__file_pointer="fileptr"),
           bases=["BloomFilter"], inv="inv_bloom_disk(self)", consts={"_typecode": "B", "_bits_per_elm": 8.0})
 
 from pyvc.api import CONTRACTS  # noqa: E402
